@@ -255,7 +255,10 @@ func cmdCheck(argv []string) int {
 	}
 	dir, _ := os.MkdirTemp("", "gocv-"+id+"-")
 	defer os.RemoveAll(dir)
-	qs, fsec := 2, 20
+	// per-obligation limit of the quick tier: every obligation of the unchanged tree is decided
+	// in under 6 s on an idle 16-core machine (evidence: slowest_obligations), so 45 s leaves
+	// room for a loaded or slower machine; it only costs time when something is wrong
+	qs, fsec := 2, 45
 	if cfg.QuickS > 0 {
 		fsec = cfg.QuickS
 	}
@@ -275,6 +278,7 @@ func cmdCheck(argv []string) int {
 	assumptions := map[string]bool{}
 	var funcsUnder []string
 	knownHit := map[string]*Obligation{}
+	var slowest []*Obligation
 	for _, vc := range vcs {
 		funcsUnder = append(funcsUnder, vc.Name)
 		for a := range vc.assumed {
@@ -286,6 +290,7 @@ func cmdCheck(argv []string) int {
 		for _, o := range vc.obls {
 			nObl++
 			solverTime += o.TimeS
+			slowest = append(slowest, o)
 			if o.Status == "proved" {
 				nDis++
 				byBackend[o.Solver]++
@@ -396,6 +401,15 @@ func cmdCheck(argv []string) int {
 			"known_findings":           knownEv,
 			"dropped_by_translation":   []string{"goroutines/channels/select (functions using them are outside the subset)", "mutex operations (no-ops)", "logging and fmt formatting (opaque)"},
 			"per_obligation_timeout_s": fsec,
+			"slowest_obligations": func() []string {
+				// the margin to the per-obligation time limit, measured on this run
+				sort.Slice(slowest, func(i, j int) bool { return slowest[i].TimeS > slowest[j].TimeS })
+				var out []string
+				for i := 0; i < len(slowest) && i < 5; i++ {
+					out = append(out, fmt.Sprintf("%s %.1fs [%s]", slowest[i].Name, slowest[i].TimeS, slowest[i].Solver))
+				}
+				return out
+			}(),
 			"split_cases_left_to_thorough_tier": func() int {
 				n := 0
 				for _, e := range engines {
